@@ -127,16 +127,20 @@ func (c *HeartbeatManager) updateHeartbeatData(stopC chan struct{}, d time.Durat
 	if d > 2*time.Second {
 		d -= 2 * time.Second
 	}
+	verifYield("Heartbeat.started")
+	defer verifYield("Heartbeat.exited")
 	ticker := time.NewTicker(d)
 	for {
 		select {
 		case <-ticker.C:
+			verifYield("Heartbeat.fired")
 
 			heartbeatData := c.heartbeatData(time.Now().UTC(), c.heartBeatCounter())
 
 			c.mux.Lock()
 			// updating the data will automatically notify all subscribed remote features
 			c.localFeature.SetData(model.FunctionTypeDeviceDiagnosisHeartbeatData, heartbeatData)
+			verifYield("Heartbeat.refreshed")
 			c.mux.Unlock()
 
 		case <-stopC:
